@@ -58,7 +58,8 @@ def _lenform(node, form, r):
     elif form == "L84":
         node.lenform = 4
     elif form == "Lpad":
-        node.lenform = ("pad", r.randrange(1, 5))
+        # X.690 8.1.3.5 allows up to 126 subsequent length octets; most padded forms are short, some very long
+        node.lenform = ("pad", r.randrange(1, 5) if r.random() < 0.85 else r.choice([6, 12, 13, 14, 15, 16, 30, 64, 120]))
 
 
 def _ser(node) -> bytes:
